@@ -1,19 +1,44 @@
 (* Model/Reservoir.v — src/reservoirsampling.rs (after repair F6). Definitions only.
-   The gap floor(ln u / ln(1-p)) is a floating-point computation: the model takes the gap [g] as an
-   input of the step (the correspondence check supplies the gap the implementation was observed to
-   take and validates it against the real-number law with verified interval arithmetic, Exec/ExReservoir.v). *)
+   The gap floor(ln u / ln(1-p)) is a floating-point computation in the crate. Over the reals
+   floor(ln u / ln(1-p)) = g  iff  (1-p)^(g+1) < u <= (1-p)^g, and both u = (2^52 - v)/2^52 and
+   1-p = (i+2-k)/(i+2) are exact rationals, so the model finds g by a search with a 128-bit fixed-point
+   enclosure [lo, hi] of (1-p)^(j+1); when u falls inside the enclosure widened by 2^-40 (where float
+   rounding in the crate could decide either way) it answers "ambiguous" instead of guessing. *)
 From PDS Require Export Model.Rand.
+
+Definition FP : N := 2 ^ 128.
+(* invariant: lo <= ((num/den)^(j+1)) * 2^128 <= hi.  Some (g, false): the gap is certainly g;
+   Some (g, true): ambiguous at g (u within 2^-40 relative of a boundary); None: out of fuel *)
+Fixpoint gap_search (num den U lo hi j : N) (fuel : nat) : option (N * bool) :=
+  match fuel with
+  | O => None
+  | S f =>
+      if hi + hi / 2 ^ 40 + 1 <? U then Some (j, false)
+      else if U <=? lo - lo / 2 ^ 40 then gap_search num den U (lo * num / den) ((hi * num + den - 1) / den) (j + 1) f
+      else Some (j, true)
+  end.
+(* reservoirsampling.rs:137-142 : p = k/(i+2) (i = items seen before this add), u = 1 - v/2^52 *)
+Definition gap_fix (k i v : N) : option (N * bool) :=
+  let den := i + 2 in
+  let num := den - k in
+  let U := (2 ^ 52 - v) * 2 ^ 76 in
+  gap_search num den U (FP * num / den) ((FP * num + den - 1) / den) 0 (N.to_nat (40 * den / k + 2)).
 
 Record reservoir := { rk : N; rres : list N; ri : N; rskip : N }.
 
 Definition res_new (k : N) : option reservoir := if 0 <? k then Some {| rk := k; rres := []; ri := 0; rskip := 0 |} else None.
 
-(* one add: item x, RNG words ws, gap g (used only when a gap is drawn).
-   Returns the new state, the unused words, and whether a gap was drawn (with the u numerator / 2^52). *)
-Definition res_add (s : reservoir) (x : N) (ws : list N) (g : N) : option (reservoir * list N * option N) :=
+(* one add: item x, RNG words ws. Returns the new state, the unused words, and whether the gap
+   computation was ambiguous (see above). None = panic / out of words. *)
+Definition draw_gap (k i : N) (ws : list N) : option (N * bool * list N) :=
+  match gen_unit52 ws with
+  | None => None
+  | Some (v, ws') => match gap_fix k i v with Some (g, amb) => Some (g, amb, ws') | None => None end
+  end.
+Definition res_add (s : reservoir) (x : N) (ws : list N) : option (reservoir * list N * bool) :=
   let k := rk s in let i := ri s in let t := 4 * k in
   if i <? k then
-    Some ({| rk := k; rres := rres s ++ [x]; ri := i + 1; rskip := rskip s |}, ws, None)
+    Some ({| rk := k; rres := rres s ++ [x]; ri := i + 1; rskip := rskip s |}, ws, false)
   else if i <=? t then
     match gen_range_incl 0 i ws with
     | None => None
@@ -22,11 +47,11 @@ Definition res_add (s : reservoir) (x : N) (ws : list N) (g : N) : option (reser
         | None => None
         | Some r' =>
             if i =? t then
-              match gen_unit52 ws1 with
+              match draw_gap k i ws1 with
               | None => None
-              | Some (v, ws2) => Some ({| rk := k; rres := r'; ri := i + 1; rskip := i + 1 + g |}, ws2, Some v)
+              | Some (g, amb, ws2) => Some ({| rk := k; rres := r'; ri := i + 1; rskip := i + 1 + g |}, ws2, amb)
               end
-            else Some ({| rk := k; rres := r'; ri := i + 1; rskip := rskip s |}, ws1, None)
+            else Some ({| rk := k; rres := r'; ri := i + 1; rskip := rskip s |}, ws1, false)
         end
     end
   else if rskip s <=? i then
@@ -36,13 +61,13 @@ Definition res_add (s : reservoir) (x : N) (ws : list N) (g : N) : option (reser
         match setN (rres s) j x with
         | None => None
         | Some r' =>
-            match gen_unit52 ws1 with
+            match draw_gap k i ws1 with
             | None => None
-            | Some (v, ws2) => Some ({| rk := k; rres := r'; ri := i + 1; rskip := i + 1 + g |}, ws2, Some v)
+            | Some (g, amb, ws2) => Some ({| rk := k; rres := r'; ri := i + 1; rskip := i + 1 + g |}, ws2, amb)
             end
         end
     end
-  else Some ({| rk := k; rres := rres s; ri := i + 1; rskip := rskip s |}, ws, None).
+  else Some ({| rk := k; rres := rres s; ri := i + 1; rskip := rskip s |}, ws, false).
 
 Definition res_clear (s : reservoir) : reservoir := {| rk := rk s; rres := []; ri := 0; rskip := 0 |}.
 Definition res_is_empty (s : reservoir) : bool := ri s =? 0.
